@@ -57,6 +57,9 @@ type Program struct {
 	Sizes    types.Sizes
 }
 
+// curProg: the program being analysed (for helpers that resolve parameters through call sites).
+var curProg *Program
+
 type loadError struct{ msg string }
 
 func (e *loadError) Error() string { return e.msg }
@@ -160,6 +163,7 @@ func Load(repo string, cfg Config, extra ...string) (*Program, error) {
 		}
 	}
 	p.allFuncs = ssautil.AllFunctions(prog)
+	curProg = p
 	curSess = inferSessionInfo(p)
 	p.Sizes = pkgs[0].TypesSizes
 	platformIntBytes = p.Sizes.Sizeof(types.Typ[types.Int])
